@@ -57,6 +57,12 @@ FailedBag(o, ob, r) ==
         always == Mk("frame", "cell_mutated", cellsame)
                   \cup Mk("guard", "capacity_exceeded", B!Capacity(post))
                   \cup Mk("frame", "argument_mutated", Has(r, "argafter") => r.argafter = c.bits)
+                  \* hash and serialisation of a cell equal those of the same value rebuilt from fresh objects
+                  \cup Mk("frame", "result_depends_on_history",
+                          \A j \in 1..Len(r.post) : r.post[j].k = "cell" => (r.post[j].h = r.post[j].fh /\ r.post[j].s = r.post[j].fs))
+                  \* every live object must stay observable (hash, to_boc, bits, refs) after every call
+                  \cup (IF Has(r, "broken") THEN {<<"value", "live_object_unobservable">>, <<"guard", "live_object_unobservable">>,
+                                                   <<"frame", "live_object_unobservable">>} ELSE {})
     IN always \cup
     IF c.op = "store_snake_bytes"
     THEN LET old == o[c.obj]
